@@ -4,6 +4,7 @@
   pre-check.  All by composition of the combinator lemmas (MM/Lemmas/C05Comb.lean).
 -/
 import MM.Lemmas.C05Comb
+import MM.Lemmas.C05Alloc
 import MM.Model.C05
 
 namespace MM.C05
@@ -199,5 +200,170 @@ theorem controlResponse_decwf_bounded (bs : Bytes) (a) (rest : Bytes) (hlen : bs
   rw [hw]
   dsimp only
   rw [ht]; simp
+
+/-! ### allocation bounds per kind -/
+
+theorem addrStrict_alloc (t A : Nat) (hA : 1 ≤ A) : (addrStrict t).AllocBound A 0 := by
+  unfold addrStrict
+  split
+  · exact bytesN_alloc _ _ hA
+  · split
+    · exact bytesN_alloc _ _ hA
+    · split
+      · exact peek1_alloc _ hA
+      · exact failC_alloc _
+
+theorem addrLoose_alloc (t A : Nat) (hA : 1 ≤ A) : (addrLoose t).AllocBound A 0 := by
+  unfold addrLoose
+  split
+  · exact bytesN_alloc _ _ hA
+  · split <;> exact bytesN_alloc _ _ hA
+
+theorem advPrefix_alloc (t A : Nat) (hA : 1 ≤ A) : (advPrefix t).AllocBound A 0 := by
+  unfold advPrefix
+  split
+  · exact peek1_alloc _ hA
+  · split
+    · exact fwdPrefix_alloc _ hA
+    · split <;> exact bytesN_alloc _ _ hA
+
+syntax "codec_alloc_steps" : tactic
+macro_rules
+  | `(tactic| codec_alloc_steps) => `(tactic|
+      repeat' (first
+        | exact be_alloc _ _ | exact bool_alloc _ | exact bytesN_alloc _ _ (by decide)
+        | exact lp_alloc _ _ (by decide) | exact peek1_alloc _ (by decide)
+        | exact fwdPrefix_alloc _ (by decide)
+        | (intro _; first
+            | exact addrStrict_alloc _ _ (by decide) | exact addrLoose_alloc _ _ (by decide)
+            | exact advPrefix_alloc _ _ (by decide) | exact bytesN_alloc _ _ (by decide)
+            | exact be_alloc _ _)
+        | apply seq_alloc | apply dep_alloc (Kb := 0) | apply listN1_alloc | apply preEnc_alloc))
+
+/-- `c.AllocBound A K` for a composition: the constant is synthesised, then compared -/
+syntax "codec_alloc" : tactic
+macro_rules
+  | `(tactic| codec_alloc) => `(tactic|
+      (apply AllocBound.monoK (by codec_alloc_steps); decide))
+
+theorem ids_alloc (A : Nat) (hA : 1 ≤ A) : ids.AllocBound A (16 * 255) :=
+  listN1_alloc 16 (bytesN_alloc 16 A hA)
+
+/-- `EncryptedData` + `DecodePath` of a plaintext path -/
+theorem encPath_alloc : encPathC.AllocBound 2 4080 := by
+  have hc : (seq bool (lp 2)).AllocBound 1 0 := by codec_alloc
+  have hle : (seq bool (lp 2)).LenExact := by codec_lenexact
+  have := refine_alloc (A1 := 1) (A2 := 1) (K1 := 0) (Kn := 4080)
+    (fun e => e.1 || pathOK e.2) (fun e => if e.1 then 0 else ids.alloc e.2) hc (by
+      intro bs x r hd
+      have hl := hle bs x r hd
+      have hx : ((seq bool (lp 2)).enc x).length = 1 + (2 + x.2.length) := by
+        simp [seq, bool, lp]; omega
+      split
+      · omega
+      · have := (ids_alloc 1 (by decide) x.2).2
+        omega)
+  exact this
+
+theorem peerHello_alloc : peerHelloC.AllocBound 1 4080 := by unfold peerHelloC; codec_alloc
+theorem streamOpen_alloc : streamOpenC.AllocBound 1 4080 := by unfold streamOpenC; codec_alloc
+theorem streamOpenAck_alloc : streamOpenAckC.AllocBound 1 0 := by unfold streamOpenAckC; codec_alloc
+theorem streamOpenErr_alloc : streamOpenErrC.AllocBound 1 0 := by unfold streamOpenErrC; codec_alloc
+theorem controlRequest_alloc : controlRequestC.AllocBound 1 4080 := by unfold controlRequestC; codec_alloc
+theorem controlResponse_alloc : controlResponseC.AllocBound 1 0 := by unfold controlResponseC; codec_alloc
+theorem udpDatagram_alloc : udpDatagramC.AllocBound 1 0 := by unfold udpDatagramC; codec_alloc
+theorem icmpOpen_alloc : icmpOpenC.AllocBound 1 4080 := by unfold icmpOpenC; codec_alloc
+theorem icmpOpenAck_alloc : icmpOpenAckC.AllocBound 1 0 := by unfold icmpOpenAckC; codec_alloc
+theorem icmpEcho_alloc : icmpEchoC.AllocBound 1 0 := by unfold icmpEchoC; codec_alloc
+theorem sleep_alloc : sleepC.AllocBound 1 4080 := by unfold sleepC; codec_alloc
+theorem encData_alloc : (seq bool (lp 2)).AllocBound 1 0 := by codec_alloc
+theorem routeWithdraw_alloc : routeWithdrawC.AllocBound 1 14280 := by
+  unfold routeWithdrawC wdRouteC sizeofRoute; codec_alloc
+
+theorem routeAdvertise_alloc : routeAdvertiseC.AllocBound 2 18360 := by
+  unfold routeAdvertiseC
+  have hr : (listN 1 advRouteC sizeofRoute).AllocBound 2 10200 := by
+    unfold advRouteC sizeofRoute; codec_alloc
+  have := seq_alloc (bytesN_alloc 16 2 (by decide)) (seq_alloc (lp_alloc 1 2 (by decide))
+    (seq_alloc (be_alloc 8 2) (seq_alloc hr (seq_alloc encPath_alloc (ids_alloc 2 (by decide))))))
+  exact AllocBound.monoK this (by decide)
+
+theorem niHead_alloc : niHeadC.AllocBound 1 4080 := by unfold niHeadC; codec_alloc
+theorem peer_alloc : peerC.AllocBound 1 0 := by unfold peerC; codec_alloc
+
+theorem niHead_shrinks : niHeadC.Shrinks := by
+  unfold niHeadC
+  repeat' (first | exact be_shrinks _ | exact lp_shrinks _ | apply seq_shrinks | apply listN_shrinks)
+
+theorem peer_shrinks : peerC.Shrinks := by
+  unfold peerC
+  repeat' (first | exact be_shrinks _ | exact lp_shrinks _ | exact bool_shrinks | exact bytesN_shrinks _ | apply seq_shrinks)
+
+/-- `DecodeNodeInfo` allocates at most 3·len + 7280 bytes through wire-driven sizes. -/
+theorem nodeInfoAlloc_le (buf : Bytes) : nodeInfoAlloc buf ≤ 3 * buf.length + 7280 := by
+  unfold nodeInfoAlloc
+  have hmp : maxPeers = 50 := rfl
+  have hmf : maxFls = 20 := rfl
+  have hms : maxShells = 10 := rfl
+  have s1 : sizeofPeerInfo = 48 := rfl
+  have s2 : sizeofListenerInfo = 32 := rfl
+  have s3 : sizeofString = 16 := rfl
+  split
+  · omega
+  · have hH := niHead_alloc buf
+    cases hd : niHeadC.dec buf with
+    | none => simp only []; have := hH.2; omega
+    | some p =>
+      obtain ⟨x, r0⟩ := p
+      have h0 := hH.1 x r0 hd
+      have sh0 := niHead_shrinks _ _ _ hd
+      simp only []
+      cases hu : u8.dec r0 with
+      | none => simp only []; omega
+      | some q =>
+        obtain ⟨pc, r1⟩ := q
+        have sh1 := be_shrinks 1 _ _ _ hu
+        have hmin : min pc maxPeers ≤ 50 := by rw [hmp]; exact Nat.min_le_right _ _
+        have hpm : sizeofPeerInfo * min pc maxPeers ≤ 2400 := by
+          rw [s1]; omega
+        have htl : sizeofListenerInfo * maxFls + sizeofString * maxShells = 800 := by decide
+        have hR := repAlloc_bound peer_alloc (min pc maxPeers) r1
+        simp only []
+        cases hp : repDec peerC (min pc maxPeers) r1 with
+        | none => simp only []; have := hR.2; omega
+        | some q2 =>
+          obtain ⟨ps, r2⟩ := q2
+          have sh2 := repDec_shrinks peer_shrinks _ _ _ _ hp
+          simp only []
+          cases hk : key32.dec r2 with
+          | none => simp only []; have := hR.2; omega
+          | some q3 =>
+            obtain ⟨k, r3⟩ := q3
+            have sh3 := bytesN_shrinks 32 _ _ _ hk
+            simp only []
+            have := hR.2
+            omega
+
+/-- `EncryptedData` + `DecodeNodeInfo` of plaintext info -/
+theorem encInfo_alloc : encInfoC.AllocBound 4 7280 := by
+  have hc : (seq bool (lp 2)).AllocBound 1 0 := by codec_alloc
+  have hle : (seq bool (lp 2)).LenExact := by codec_lenexact
+  have := refine_alloc (A1 := 1) (A2 := 3) (K1 := 0) (Kn := 7280)
+    (fun e => e.1 || nodeInfoOK e.2) (fun e => if e.1 then 0 else nodeInfoAlloc e.2) hc (by
+      intro bs x r hd
+      have hl := hle bs x r hd
+      have hx : ((seq bool (lp 2)).enc x).length = 1 + (2 + x.2.length) := by
+        simp [seq, bool, lp]; omega
+      split
+      · omega
+      · have := nodeInfoAlloc_le x.2
+        omega)
+  exact this
+
+theorem nodeInfoAdvertise_alloc : nodeInfoAdvertiseC.AllocBound 4 11360 := by
+  unfold nodeInfoAdvertiseC
+  have := seq_alloc (bytesN_alloc 16 4 (by decide)) (seq_alloc (be_alloc 8 4)
+    (seq_alloc encInfo_alloc (ids_alloc 4 (by decide))))
+  exact AllocBound.monoK this (by decide)
 
 end MM.C05
